@@ -79,6 +79,25 @@ def _poly_key(t, d, which):
     return (t, d["s" + which], d["o" + which]) if not d["m" + which] else None
 
 
+_AXES6 = [np.array(v, dtype=float) for v in ((1, 0, 0), (-1, 0, 0), (0, 1, 0), (0, -1, 0), (0, 0, 1), (0, 0, -1))]
+
+
+def _probe(A, B):
+    # support VALUES, not points: a mesh may return another vertex of a tied face depending on its cached start vertex
+    return [float(np.dot(d, np.asarray(c.support_function(d), dtype=float))) for c in (A, B) for d in _AXES6]
+
+
+def _probe_viol(probe0, A, B, cls, L):
+    try:
+        now = _probe(A, B)
+    except Exception as e:  # noqa
+        return [_viol("exception_in_support_after_query:" + type(e).__name__, cls, {"exc": repr(e)[:200]})]
+    dev = max(abs(a - b) for a, b in zip(probe0, now))
+    if not dev <= 1e-12 * L:
+        return [_viol("collider_changed_by_query", cls, {"max_change_of_an_axis_support_value": dev})]
+    return []
+
+
 def run_state(desc):
     from distance3d import gjk, epa
     s = gs.build(desc)
@@ -91,13 +110,19 @@ def run_state(desc):
     mb = desc["ma"] if kind in ("identical", "same") else desc["mb"]
     poly = desc["ta"] in POLY and tb in POLY and not desc["ma"] and not mb
     viol, hist = [], {}
+    # read-only invariant (round 3, seed C07-r3-m2): gjk / epa are queries; the support values of both colliders along the six
+    # axis directions must be the same after the whole state as before it (an in-place write into a vertex view grows the shape)
+    probe0 = _probe(A, B)
     ctr0 = instr.instrument([A, B], budget=4000, log=True)
     try:
         res = gjk.gjk(A, B)
     except Exception as e:  # noqa
-        return {"viol": [], "n_eval": 1, "hist": {"gjk": {"exception": 1}}}
+        return {"viol": _probe_viol(probe0, A, B, cls, L), "n_eval": 1, "hist": {"gjk": {"exception": 1}}}
     finally:
         instr.uninstrument([A, B])
+    pv = _probe_viol(probe0, A, B, cls, L)
+    if pv:
+        return {"viol": pv, "n_eval": 1, "n_trans": 1, "traces": 1, "hist": {"gjk": {"collider_changed_by_query": 1}}}
     if res[1] is None or not res[0] == 0.0:
         return {"viol": [], "n_eval": 1, "n_trans": 1, "traces": 0, "hist": {"gjk": {"separated_or_touching(not judged)": 1}}}
     simplex = np.array(res[3], dtype=float)
@@ -202,6 +227,7 @@ def run_state(desc):
             seen_sig.add(v["sig"])
             viol.append(v)
     hist["pair_kind"] = {"polytope" if poly else "smooth_or_margin": 1}
+    viol += _probe_viol(probe0, A, B, cls, L)
     sample = None
     if poly and desc["pl"] == 16 and desc["u"] == 3 and desc["ta"] == "box" and tb == "box" and desc["oa"] == 0 and desc["ob"] == 0:
         sample = {"desc": desc, "depth": gstar, "depth_axis": nstar, "simplex": simplex}
